@@ -22,10 +22,18 @@ class RenderProp:
         pts = []
         if isinstance(s, tuple):
             s, pts = s
+        nojudge = False
+        if isinstance(s, dict):
+            # a document that takes part in the model correspondence only (the specification does not settle how it renders)
+            nojudge = bool(s.get("nojudge"))
+            s = s["src"]
         if s is None:
             F = self.features(rng) if callable(self.features) else self.features
             s = docgen.document(rng, docgen.Features(**F))
-        return {"src": s, "ndigits": rng.choice(self.ndigits), "points": [list(p) for p in pts]}
+        c = {"src": s, "ndigits": rng.choice(self.ndigits), "points": [list(p) for p in pts]}
+        if nojudge:
+            c["nojudge"] = True
+        return c
 
     def correspondence(self, ctx):
         n = self.n_thorough if ctx.thorough() else self.n_quick
@@ -64,6 +72,9 @@ class RenderProp:
         nontrivial = 0
         pts = 0
         for c, out in items:
+            if c.get("nojudge"):
+                ctx.count("render:not-judged")
+                continue
             r = self.judge(ctx, c, out)
             ctx.count("render:" + r["status"])
             if r["status"] == "skip":
